@@ -1,0 +1,20 @@
+//go:build verif
+
+// Contracts for govc (see /verif/DESIGN.md). Comment-only: no executable code with or without the tag.
+
+package dnsregserver
+
+//@ import pb "github.com/refraction-networking/conjure/proto"
+
+// the registration processor behind the DNS registrar (implemented by *regprocessor.RegProcessor)
+//@ func (p registrar) RegisterBidirectional(c2s *pb.C2SWrapper, src pb.RegistrationSource, addr []byte) (*pb.RegistrationResponse, error)
+//@   assigns memory
+//@ func (p registrar) RegisterUnidirectional(c2s *pb.C2SWrapper, src pb.RegistrationSource, addr []byte) error
+//@   assigns memory
+
+// C11: a DNS registration request of arbitrary bytes (hence any decoded wrapper, any sub-message absent) is answered
+// or refused with an error, without a nil dereference.
+//@ func (s *DNSRegServer) processRequest(reqIn []byte) ([]byte, error)
+//@   requires s != nil && s.logger != nil && s.processor != nil && s.metrics != nil
+//@   ensures @C11: true
+//@   checks safety
